@@ -192,6 +192,67 @@ theorem commit_uses_own_receipt (cfg : Cfg) (cl : Client) (token : List Nat) (fi
           (commitStep (findEnumG "sequences::PartialReversalResponse")) w none) := by
   unfold commitTx; simp only [h]
 
+/-! ### every reachable state: induction over arbitrary call histories -/
+
+inductive Call where
+  | begin (token : List Nat)
+  | commit (token : List Nat) (final : Nat)
+  | cancel (token : List Nat)
+
+def runCall (cfg : Cfg) (s : Client × World) : Call → Client × World
+  | .begin t => ((beginTx cfg s.1 t s.2).2.1, (beginTx cfg s.1 t s.2).2.2)
+  | .commit t f => ((commitTx cfg s.1 t f s.2).2.1, (commitTx cfg s.1 t f s.2).2.2)
+  | .cancel t => ((cancelTx cfg s.1 t s.2).2.1, (cancelTx cfg s.1 t s.2).2.2)
+
+def runCalls (cfg : Cfg) (s : Client × World) (calls : List Call) : Client × World := calls.foldl (runCall cfg) s
+
+theorem find_token {l : List (List Nat × Nat)} {token : List Nat} {a : List Nat} {r : Nat}
+    (h : l.find? (·.1 = token) = some (a, r)) : a = token := by
+  have := List.find?_some h
+  simpa using this
+
+/-- one call preserves "one entry per token, at most `max` entries", whatever the terminal answers. -/
+theorem call_preserves (cfg : Cfg) (s : Client × World) (c : Call) (h : Inv s.1 ∧ s.1.txs.length ≤ cfg.maxTx) :
+    Inv (runCall cfg s c).1 ∧ (runCall cfg s c).1.txs.length ≤ cfg.maxTx := by
+  obtain ⟨hi, hl⟩ := h
+  cases c with
+  | begin t => exact ⟨begin_inv cfg s.1 t s.2 hi, begin_bound cfg s.1 t s.2 hl⟩
+  | commit t f =>
+    simp only [runCall]
+    cases hf : s.1.txs.find? (·.1 = t) with
+    | none => rw [commit_unknown_no_traffic cfg s.1 t f s.2 hf]; exact ⟨hi, hl⟩
+    | some p =>
+      obtain ⟨a, r⟩ := p
+      have := find_token hf; subst this
+      refine ⟨commit_inv cfg s.1 a f s.2 r hf hi, ?_⟩
+      rw [commit_post cfg s.1 a f s.2 r hf]
+      have := List.length_filter_le (fun x : List Nat × Nat => decide (x.1 ≠ a)) s.1.txs
+      omega
+  | cancel t =>
+    simp only [runCall]
+    cases hf : s.1.txs.find? (·.1 = t) with
+    | none => rw [cancel_unknown_no_traffic cfg s.1 t s.2 hf]; exact ⟨hi, hl⟩
+    | some p =>
+      obtain ⟨a, r⟩ := p
+      have := find_token hf; subst this
+      refine ⟨cancel_inv cfg s.1 a s.2 r hf hi, ?_⟩
+      rw [cancel_post cfg s.1 a s.2 r hf]
+      have := List.length_filter_le (fun x : List Nat × Nat => decide (x.1 ≠ a)) s.1.txs
+      omega
+
+/-- **Every reachable state** — after ANY history of begin / commit / cancel calls against ANY terminal
+behaviour (the world `w` is arbitrary: replies, faults, time-outs), starting from the empty map: each open
+token has exactly one receipt and the number of open tokens never exceeds the configured maximum. -/
+theorem reachable_inv (cfg : Cfg) (w : World) (calls : List Call) :
+    Inv (runCalls cfg ({}, w) calls).1 ∧ (runCalls cfg ({}, w) calls).1.txs.length ≤ cfg.maxTx := by
+  have key : ∀ (calls : List Call) (s : Client × World), (Inv s.1 ∧ s.1.txs.length ≤ cfg.maxTx) →
+      Inv (runCalls cfg s calls).1 ∧ (runCalls cfg s calls).1.txs.length ≤ cfg.maxTx := by
+    intro calls
+    induction calls with
+    | nil => intro s h; exact h
+    | cons c cs ih => intro s h; exact ih (runCall cfg s c) (call_preserves cfg s c h)
+  exact key calls ({}, w) ⟨by simp [Inv], by simp⟩
+
 /-- non-vacuity: a concrete client state satisfying the invariant, with one open token. -/
 example : Inv { txs := [([97], 11)] } := by simp [Inv]
 
